@@ -22,7 +22,7 @@ RULE = ('batches of seeded random inputs per class: Euler triples with roll/head
         ' Round 4: the attitude block of the output transform up to a thousandth of a degree from pitch +-90 (finite-difference step and tolerance scaled with cos(pitch)).')
 ASSUMPTIONS = ['mpmath at 40 digits is exact relative to float64',
                'round-trip tolerance scales with 1/cos(pitch) (conditioning of Euler extraction)']
-REQUIRED_OBS = ['phi_block_near_singular', 'euler_matrix_mp', 'euler_matrix_float', 'sign_probes', 'roundtrip', 'rotvec_mp',
+REQUIRED_OBS = ['stacks_starting_with_zero_rows', 'phi_block_near_singular', 'euler_matrix_mp', 'euler_matrix_float', 'sign_probes', 'roundtrip', 'rotvec_mp',
                 'rotvec_near_branch', 'phi_block_derivative', 'stacked_vs_single']
 REQUIRED_CLASSES = {'all': ['euler_generic', 'euler_steep', 'euler_special', 'rotvec_log', 'rotvec_branch',
                             'phi_block']}
@@ -98,6 +98,10 @@ def run_case(case):
             head = rng.choice([0.0, 90.0, -90.0, 180.0, -180.0, 360.0, -360.0, 270.0], n)
             pitch = rng.choice([0.0, 45.0, -45.0, 89.0, -89.0, 1e-9], n)
         rph = np.column_stack([roll, pitch, head])
+        if rng.random() < 0.35:
+            # a record that starts level and pointing north (exactly zero angles in its first rows) - what the FIRST rows hold must not matter to the others
+            rph[:int(rng.integers(1, 4))] = 0.0
+            bump('stacks_starting_with_zero_rows')
         M = transform.mat_from_rph(rph)
         ref = own_euler(rph)
         e = np.abs(M - ref).max(axis=(1, 2))
